@@ -2447,7 +2447,10 @@ namespace xsimd
             {
                 B x = select(test, B(2.), a);
 #ifndef XSIMD_NO_INFINITIES
-                auto inf_result = (a == constants::infinity<B>());
+                // gamma overflows for every argument above 35.04 (float) / 171.62 (double): such lanes, not only +inf, skip the
+                // x -= 1 recurrence below, whose trip count would otherwise grow with the argument (and never end once x - 1 == x)
+                using value_type = typename B::value_type;
+                auto inf_result = (a >= B(sizeof(value_type) == 4 ? value_type(36.) : value_type(172.)));
                 x = select(inf_result, B(2.), x);
 #endif
                 B z = B(1.);
@@ -2474,7 +2477,7 @@ namespace xsimd
                 }
                 x = z * tgamma_kernel<B>::compute(x - B(2.));
 #ifndef XSIMD_NO_INFINITIES
-                return select(inf_result, a, x);
+                return select(inf_result, constants::infinity<B>(), x);
 #else
                 return x;
 #endif
